@@ -173,7 +173,11 @@ def shard(ctx):
         ctx.evaluations -= 1
         check(ctx, case, 3 if ctx.quick else 4, 1500 if ctx.quick else 5000)
 
-    ctx.run_hypothesis(comp.cases(), oracle, ctx.scale(1000, 12000))
+    import os
+
+    only = os.environ.get("VERIF_ONLY")  # experiments: restrict to some compilers
+    strat = comp.cases(names=only.split(","), with_pipelines=False) if only else comp.cases()
+    ctx.run_hypothesis(strat, oracle, ctx.scale(4000, 24000))
 
 
 def replay(ctx, case):
